@@ -87,6 +87,8 @@ func main() {
 		agree = 2
 	}
 	solvers := NewSolvers(scratch, timeout, agree)
+	eng.solvers = solvers
+	eng.workers = runtime.NumCPU() / 2
 
 	var units []*UnitResult
 	for _, key := range eng.cs.Order {
